@@ -12,6 +12,7 @@ import (
 	"verif/internal/check"
 	d "verif/internal/driver"
 	"verif/internal/e1"
+	"verif/internal/fakes"
 	"verif/internal/scen"
 	"verif/internal/sut"
 )
@@ -266,6 +267,222 @@ func checkC17(c *check.Ctx) int {
 	c.Coverage["distinct_flag_sets_nontrivial"] = len(subsets)
 	c.Coverage["windows_compared"] = compared
 	c.Coverage["events_removed_by_flag_filter"] = suppressed
+	partFlagsRealBinary(c, a)
 	a.add(done, nontrivial, "E5: one recorded sequential history is executed without flags and again under a flag set (lab SUT, flags per connection); every per-step window under flags must equal the flag-free window minus the classes named by the set flags, and both runs are judged by the flag-aware reference model (state via a flag-free probe); a flag set is distinct by its members and non-trivial when at least one message was actually suppressed and at least one unsuppressed message was still delivered (unknown-name sets: nothing suppressed, something delivered)", samples...)
 	return a.finish(c)
+}
+
+// partFlagsRealBinary: E7 sample - the real binary started with
+// HAGALL_FEATURE_FLAGS (cmd/main.go -> featureflag.New): a fixed script, and
+// the number of messages of each class must be the flag-free number, or zero
+// for the classes named by the flags.
+func partFlagsRealBinary(c *check.Ctx, a *acc) {
+	bin, err := c.WS.Build("real", "plain")
+	if err != nil {
+		c.Inconc("real build failed: " + err.Error())
+		return
+	}
+	want := map[int32]int{d.TSessionState: 3, d.TJoinBcast: 3, d.TEntityAddBcast: 2, d.TCompAddBcast: 2, d.TCompUpdateBcast: 2, d.TPoseBcast: 2,
+		d.TCustomBcast: 2, d.TCompDelBcast: 2, d.TEntityDelBcast: 2, d.TLeaveBcast: 2}
+	var sets [][]string
+	sets = append(sets, nil, flagSubset(1023), []string{"DISABLE_UNKNOWN_THING", "disable_session_state"})
+	for i := range allFlags {
+		if c.Quick() && i%3 != int(c.Seed)%3 {
+			continue
+		}
+		sets = append(sets, flagSubset(1<<i))
+	}
+	x := uint64(c.Seed)*2862933555777941757 + 3037000493
+	for i := 0; i < c.Pick(2, 12); i++ {
+		x = x*2862933555777941757 + 3037000493
+		sets = append(sets, flagSubset(int(x>>35)%1024))
+	}
+	var mu sync.Mutex
+	done, nontrivial := 0, 0
+	var samples []any
+	parallel(len(sets), 6, func(i int) {
+		flags := sets[i]
+		trig := strings.Join(flags, "+")
+		defer func() {
+			if r := recover(); r != nil {
+				c.Inconc(fmt.Sprint("C17 real binary ", flags, ": ", r))
+			}
+		}()
+		hds, err := fakes.NewHDS()
+		if err != nil {
+			panic(err)
+		}
+		defer hds.Close()
+		p, err := c.WS.StartReal(bin, sut.RealOpts{HDS: hds.URL(), NCS: fakes.ClosedPortURL(), Flags: flags, Frame: 2 * time.Millisecond, Name: "realflags"})
+		if err != nil {
+			panic(err)
+		}
+		defer p.Kill()
+		for k := 0; k < 1000 && hds.Secret() == ""; k++ {
+			time.Sleep(10 * time.Millisecond)
+		}
+		if hds.Secret() == "" {
+			panic("not registered")
+		}
+		token := signJWT("HS256", hds.Secret(), map[string]any{"alg": "HS256", "typ": "JWT"}, map[string]any{"exp": time.Now().Add(time.Hour).Unix()})
+		dial := func() *scen.C {
+			cl, err := scen.DialReal(p, token)
+			if err != nil {
+				panic(err)
+			}
+			return cl
+		}
+		ok := func(e *d.Event, err error, what string) {
+			if err != nil || e == nil || e.Type == d.TError {
+				c.Report(&check.Finding{Props: []string{"C17"}, Clause: "flags/request-outcome-changed", Trigger: trig, Engine: "E7 real binary flags",
+					Detail: fmt.Sprintf("under HAGALL_FEATURE_FLAGS=%v the request %q did not succeed: %v %v", flags, what, e, err)})
+			}
+		}
+		A, B, C := dial(), dial(), dial()
+		defer A.Close()
+		defer B.Close()
+		defer C.Close()
+		var all []*d.Event
+		keep := func(cl *scen.C) { all = append(all, cl.Extra...) }
+		jr, ev, err := A.Join("")
+		ok(ev, err, "join (create)")
+		keep(A)
+		if jr == nil {
+			return
+		}
+		_, ev, err = B.Join(jr.SessionId)
+		ok(ev, err, "join B")
+		keep(B)
+		_, ev, err = C.Join(jr.SessionId)
+		ok(ev, err, "join C")
+		keep(C)
+		typ, err := A.AddType("T")
+		if err != nil || typ == 0 {
+			panic("type add")
+		}
+		keep(A)
+		ev, err = B.Subscribe(typ)
+		ok(ev, err, "subscribe B")
+		keep(B)
+		ev, err = C.Subscribe(typ)
+		ok(ev, err, "subscribe C")
+		keep(C)
+		e, err := A.AddEntity(false, 1)
+		if err != nil || e == 0 {
+			panic("entity add")
+		}
+		keep(A)
+		ev, err = A.AddComp(typ, e, "v1")
+		ok(ev, err, "component add")
+		keep(A)
+		A.UpdateComp(typ, e, "v2")
+		A.Pose(e, 42)
+		A.Custom([]byte("hello"))
+		// deferred relays: wait (bounded) until B has what it must get, or for 60 frames when nothing is owed
+		expPose, expUpd := 1, 1
+		for _, f := range flags {
+			if f == "DISABLE_ENTITY_UPDATE_POSE_BROADCAST" {
+				expPose = 0
+			}
+			if f == "DISABLE_ENTITY_COMPONENT_UPDATE_BROADCAST" {
+				expUpd = 0
+			}
+		}
+		gotPose, gotUpd := 0, 0
+		deadline := time.Now().Add(5 * time.Second)
+		quiet := time.Now().Add(120 * time.Millisecond)
+		for time.Now().Before(deadline) {
+			w, err := B.Barrier()
+			if err != nil {
+				panic(err)
+			}
+			all = append(all, w...)
+			for _, x := range w {
+				if x.Type == d.TPoseBcast {
+					gotPose++
+				}
+				if x.Type == d.TCompUpdateBcast {
+					gotUpd++
+				}
+			}
+			if gotPose >= expPose && gotUpd >= expUpd && time.Now().After(quiet) {
+				break
+			}
+			time.Sleep(2 * time.Millisecond)
+		}
+		ev, err = A.DelComp(typ, e)
+		ok(ev, err, "component delete")
+		keep(A)
+		ev, err = A.DeleteEntity(e)
+		ok(ev, err, "entity delete")
+		keep(A)
+		wc, _ := C.Barrier()
+		all = append(all, wc...)
+		C.Close()
+		C.WaitClosed()
+		// the leave relay: bounded wait at A
+		for k := 0; k < 500; k++ {
+			w, err := A.Barrier()
+			if err != nil {
+				panic(err)
+			}
+			all = append(all, w...)
+			seen := false
+			for _, x := range all {
+				if x.Type == d.TLeaveBcast {
+					seen = true
+				}
+			}
+			if seen || k > 60 && contains(flags, "DISABLE_PARTICIPANT_LEAVE_BROADCAST") {
+				break
+			}
+			time.Sleep(2 * time.Millisecond)
+		}
+		w, _ := B.Barrier()
+		all = append(all, w...)
+		got := map[int32]int{}
+		for _, x := range all {
+			got[x.Type]++
+		}
+		suppressed := 0
+		bad := false
+		for t, n := range want {
+			exp := n
+			for _, f := range flags {
+				if e1.FlagClass[f] == t && f != "" {
+					if _, known := e1.FlagClass[f]; known {
+						exp = 0
+					}
+				}
+			}
+			if exp == 0 {
+				suppressed++
+			}
+			if got[t] != exp {
+				bad = true
+				c.Report(&check.Finding{Props: []string{"C17"}, Clause: "flags/class-count", Trigger: trig, Engine: "E7 real binary flags",
+					Detail: fmt.Sprintf("real binary with HAGALL_FEATURE_FLAGS=%v: %d messages of class %s were received over the fixed script, expected %d", flags, got[t], d.TypeName(t), exp)})
+			}
+		}
+		mu.Lock()
+		defer mu.Unlock()
+		done++
+		if !bad {
+			nontrivial++
+			if len(samples) < 2 {
+				samples = append(samples, map[string]any{"engine": "E7 real binary flags", "flags": flags, "classes_suppressed": suppressed, "messages_by_type": fmt.Sprint(got)})
+			}
+		}
+	})
+	c.Coverage["real_binary_flag_sets"] = done
+	a.add(done, nontrivial, "E7: the real binary is started with HAGALL_FEATURE_FLAGS set to a flag subset (the empty set, the full set, unknown names, singletons, seeded subsets) and a fixed script of three clients is played; per message class the number received must be the flag-free number, or zero for the classes named by the flags, and every request must succeed", samples...)
+}
+
+func contains(l []string, s string) bool {
+	for _, x := range l {
+		if x == s {
+			return true
+		}
+	}
+	return false
 }
